@@ -78,9 +78,12 @@ def ivSumIn (m : Mod → Rat) (ivs : Option (List Interval)) (lo hi : Int) : Rat
   | none => 0
   | some L => ((L.filter fun iv => decide (lo ≤ iv.start ∧ iv.stop ≤ hi)).map fun iv => modSum m iv.mods).sum
 
-/-- well-formed intervals: non-empty and inside the sequence -/
+/-- well-formed intervals: each non-empty and inside the sequence, listed in sequence order without overlap (adjacent
+allowed) — what the parser produces -/
 def IntervalsOK (a : Annotation) : Prop :=
-  ∀ L, a.intervals = some L → ∀ iv ∈ L, 0 ≤ iv.start ∧ iv.start < iv.stop ∧ iv.stop ≤ (a.seq.length : Int)
+  ∀ L, a.intervals = some L →
+    (∀ iv ∈ L, 0 ≤ iv.start ∧ iv.start < iv.stop ∧ iv.stop ≤ (a.seq.length : Int)) ∧
+    L.Pairwise (fun x y => x.stop ≤ y.start)
 
 /-- the interval wraps around the end of the sequence after a rotation by `eff` (`0 ≤ eff < n`): the rotation point falls
 strictly inside it, so its residues land at both ends of the new sequence -/
